@@ -2,6 +2,14 @@
    This file contains only statements closed by `exact` and their Print Assumptions.
    Part 1 speaks about the Semaphore machine (prims/Sem.v); after the second Require Import the short names
    (st, step, reach, ...) denote the CapacityLimiter machine (prims/Limiter.v).
+   HYPOTHESES that appear in the statements (nothing else is assumed):
+   * part 1, every theorem about reachable states: `max_ok iv mx`, i.e. initial_value <= max_value when a
+     max_value is given - the check the constructor anyio.Semaphore.__init__ performs itself (ValueError
+     otherwise; compared by the harness' constructor checks);
+   * part 2, where written: `tainted s = false`, see below;
+   * C10_lim_never_over_granted: the run never assigns total_tokens a value below the number of tokens
+     borrowed at that moment (`never_lowered_below_borrowed`); without it over-capacity states are reachable
+     and, by C10_lim_grant_only_if_free / C10_lim_no_borrower_added_when_full, only shrink.
    In part 2 `tainted s = false` excludes exactly the histories in which release_on_behalf_of(b) was called
    before b's acquire call returned (O2); duplicate borrowers among concurrent acquire_on_behalf_of calls are
    inside every statement (F16: the second caller is refused, C10_lim_waiting_borrower_rejected). *)
@@ -251,10 +259,28 @@ Theorem C10_lim_direct_grant_needs_free : forall s t b o,
 Proof. exact lim_direct_grant_needs_free. Qed.
 Print Assumptions C10_lim_direct_grant_needs_free.
 
-Theorem C10_lim_never_over_granted : forall v s o, reach v s ->
+Theorem C10_lim_no_borrower_added_when_full : forall v s o, reach v s ->
+  total (fst (step s o)) = total s ->
+  (forall b, In b (borrowers s) -> In b (borrowers (fst (step s o)))) ->
+  (exists b, In b (borrowers (fst (step s o))) /\ ~ In b (borrowers s)) ->
+  free (borrowers s) (total s) = true.
+Proof. exact lim_no_borrower_added_when_full. Qed.
+Print Assumptions C10_lim_no_borrower_added_when_full.
+
+Theorem C10_lim_within_total_preserved : forall v s o, reach v s ->
   xle (length (borrowers s)) (total s) ->
   (forall t x, o = SetTotal t x -> xle (length (borrowers s)) x) ->
   xle (length (borrowers (fst (step s o)))) (total (fst (step s o))).
+Proof. exact lim_within_total_preserved. Qed.
+Print Assumptions C10_lim_within_total_preserved.
+
+Theorem C10_lim_never_over_granted : forall v ops,
+  (fix never_lowered (s : st) (ops : list op) : Prop :=
+     match ops with
+     | [] => True
+     | o :: r => (forall t x, o = SetTotal t x -> xle (length (borrowers s)) x) /\ never_lowered (fst (step s o)) r
+     end) (init v) ops ->
+  xle (length (borrowers (final step (init v) ops))) (total (final step (init v) ops)).
 Proof. exact lim_never_over_granted. Qed.
 Print Assumptions C10_lim_never_over_granted.
 
@@ -349,10 +375,15 @@ Print Assumptions C10_lim_no_lost_waiter.
 
 Theorem C10_lim_duplicate_waiter_refuted_pinned :
   (exists ops, let s := final step_f16_pinned (init (Some 1)) ops in
+     tainted s = false /\
      phase_of s 2 = Waiting 11 1 /\ evset s 1 = false /\ fcanc s 2 = false /\ mustc s 2 = false /\
-     queue s = [] /\ borrowers s = [] /\ free (borrowers s) (total s) = true /\ phase_of s 1 = Idle) /\
+     ~ In (11, 1) (queue s) /\ free (borrowers s) (total s) = true /\
+     queue s = [] /\ borrowers s = [] /\ phase_of s 1 = Idle) /\
   (exists ops, let s := final step_f16_pinned (init (Some 1)) ops in
-     phase_of s 1 = Waiting 11 0 /\ evset s 0 = false /\ phase_of s 2 = Waiting 11 1 /\ evset s 1 = true /\
+     tainted s = false /\
+     inprog s 1 11 /\ inprog s 2 11 /\
+     phase_of s 1 = Waiting 11 0 /\ evset s 0 = false /\ fcanc s 1 = false /\ ~ In (11, 0) (queue s) /\
+     phase_of s 2 = Waiting 11 1 /\ evset s 1 = true /\
      arrivals s = [(11, 0); (11, 1)] /\ queue s = [] /\ borrowers s = [11]).
 Proof. exact lim_duplicate_waiter_refuted_pinned. Qed.
 Print Assumptions C10_lim_duplicate_waiter_refuted_pinned.
